@@ -23,7 +23,8 @@ def run(ctx):
         plan = {"gen": [("eq_ret", ret, dict(family=FAM_ALL, horizon=20, maxep=1, maxins=2, pick="insertion", ttls=(10,)), 1),
                         ("eq_drop", drop, dict(family=FAM_ALL, horizon=20, maxep=2, maxins=2, pick="insertion"), 1)],
                 "drv": [("all", "all", 2500, 80, dict(big_every=40)), ("adm", "admission", 1000, 80, {}), ("time", "time", 1000, 80, {}),
-                        ("oper", "operator", 800, 80, dict(big_every=40))]}
+                        ("oper", "operator", 800, 80, dict(big_every=40))],
+                "gen_cap": 80000}   # measured: 396k / 686k edge schedules; 42 min with a cap of 120000
     q.run_plan(ctx, plan, RULE, reference=True,
                assumptions=["PostgreSQL cannot be run here (no server, nothing fetchable): the claim is memory == SQLite only"])
 
